@@ -101,6 +101,32 @@ func main() {
 		fmt.Println(string(b))
 	case "scn":
 		cmdScn(os.Args[2:])
+	case "replay":
+		// replay <property> <file>: re-run the stored witnesses on the real code and print what happens
+		raw, err := os.ReadFile(os.Args[3])
+		if err != nil {
+			fmt.Fprintln(os.Stderr, err)
+			os.Exit(2)
+		}
+		var rf struct {
+			Findings []struct {
+				Signature string          `json:"signature"`
+				What      string          `json:"what"`
+				Replay    json.RawMessage `json:"replay"`
+			} `json:"findings"`
+		}
+		json.Unmarshal(raw, &rf)
+		for _, f := range rf.Findings {
+			fmt.Println("== finding:", f.Signature, "—", f.What)
+			var r struct {
+				Scenario string `json:"scenario"`
+			}
+			if json.Unmarshal(f.Replay, &r) == nil && r.Scenario != "" {
+				cmdScn([]string{r.Scenario})
+			} else {
+				fmt.Println("   input:", string(f.Replay))
+			}
+		}
 	default:
 		fmt.Fprintln(os.Stderr, "unknown command", os.Args[1])
 		os.Exit(2)
